@@ -570,6 +570,14 @@ func TestVerifConn(t *testing.T) {
 		if pan != nil {
 			// a panic on the trial goroutine itself is harness code unless netpoll frames are on top
 			site := vfPanicSite(panStack)
+			if site != "" && !strings.Contains(site, "zz_verif_") && strings.Contains(site, "netpoll") && len(scen) == 3 {
+				// raised inside netpoll's own code by a call the scenario made within the contract
+				vfEmit(map[string]interface{}{"kind": "violation", "engine": "connmon", "scenario": scen, "case": idx, "case_seed": ts,
+					"property": scen, "oracle": "panic", "msg": fmt.Sprintf("a call made by the scenario panicked inside netpoll: %v at %s", pan, site),
+					"detail": map[string]interface{}{"stack": panStack}, "params": tr.Param})
+				nextCase = idx + 1
+				break
+			}
 			vfEmit(map[string]interface{}{"kind": "harness_panic", "engine": "connmon", "scenario": scen, "case": idx, "case_seed": ts,
 				"panic": fmt.Sprint(pan), "site": site, "stack": panStack, "params": tr.Param})
 			nextCase = idx + 1
